@@ -203,6 +203,8 @@ def run(chk):
 
 
 def judge(chk, cipher, fn, attack, key, sfw, scores, wl, guesses, kwv, bs, words):
+    # the selection-function object was (and may again be) used for another campaign, with another key: the expected key is a function of the key given
+    sfw.compute_expected_key(key=np.array([(37 * b + 11) % 256 for b in key], dtype='uint8'))
     ek = np.asarray(sfw.compute_expected_key(key=np.array(key, dtype='uint8'))).reshape(-1)
     for col, w in enumerate(wl):
         chk.count((cipher, fn, attack, tuple(key), w, bs), nontrivial=True)
